@@ -343,8 +343,18 @@ class World:
                     bases.insert(0, mixin)
                     shape.append('mixin')
                 if pmixin and rng.random() < 0.4:
-                    bases.insert(0, pmixin)
-                    shape.append('plain-mixin')
+                    pm = pmixin
+                    if rng.random() < 0.4:
+                        # the mixin is reached only through an intermediate (empty) subclass of it
+                        self.uid += 1
+                        pm = type(f'PlainVia_{self.uid}', (pmixin,), {'__module__': __name__})
+                        shape.append('indirect')
+                    if rng.random() < 0.5:
+                        bases.insert(0, pm)
+                        shape.append('plain-mixin')
+                    else:
+                        bases.append(pm)           # behind the module class: contributes only what the chain does not override
+                        shape.append('plain-mixin-last')
                 lab = f'Sub{nsub}'
                 sub_plist = plist if rng.random() < 0.6 or not shape else []     # with several bases: often no own overrides
                 cls, kinds, err = self.new_sub(lab, bases, sub_plist, hascmd and bool(sub_plist))
